@@ -31,6 +31,7 @@ DOCS = {
     "rule": F([S(1), R([S(1), S(1)], tags=["rt"]), R([S(1)])]),
     "outline": F([S(1), O(1, [(2, ["e1"]), (1, [])]), S(1, tags=["setup"])]),
     "rule-outline": F([S(1, tags=["teardown"]), R([O(1, [(1, []), (2, [])]), S(1)])]),
+    "empty-examples": F([S(1), O(1, [(2, []), (0, [])]), S(1)]),       # second Examples table is header-only
     "rules-only": F([R([S(1), O(1, [(2, [])])], tags=["r1"]), R([S(1)])]),
     # @setup/@teardown exempt only the scenario that carries the tag itself, not what inherits it from a feature or rule
     "inherited-setup": F([S(1), S(1, tags=["setup"]), R([S(1), S(1)], tags=["setup"])], tags=["teardown"]),      # nothing directly under the feature
